@@ -228,7 +228,7 @@ more('C07', 'interpretation of the AQT single-qubit shortcut on model powers of 
 more('C08', 'identity-vs-equality rule on predicates; interpretation of equivalence-group keys; interpretation of CliffordGate.__pow__ over the model group Z',
      'C08.q predicate methods never answer with a bare `a is b` of two non-singleton values; C08.r qubits given the same equivalence-group key are exchangeable in the matrix '
      '(PhasedFSimGate on a grid incl. special angles; three-qubit families on their tables); C08.s square-and-multiply of CliffordGate.__pow__ returns the k-th power for |k| <= 40; C08.t / C08.u equal values hash equally: no mapping entry order in equality or hash code, frozen dataclasses pair a hand-written __eq__ with a hand-written __hash__')
-more('C10', 'accumulator rule on sweep rewrites; subclass-recognition rule in cirq.study', 'C10.j a loop that rebuilds a sweep appends exactly one point per point, into a list; C10.k where Zip is recognised by isinstance in cirq.study / transformers / sim / work, ZipLongest is tested too')
+more('C10', 'accumulator rule on sweep rewrites; subclass-recognition rule in cirq.study', 'C10.j a loop that rebuilds a sweep appends exactly one point per point, into a list; C10.k where Zip is recognised by isinstance in cirq.study / transformers / sim / work, ZipLongest is tested too; C10.l transformers apply numpy predicates to exponent-like attributes only behind a parameterization test')
 more('C11', 'repr/equality field coherence; path rule on optional JSON keys; order-insensitive consumption of mappings in equality code; eq/hash pairing of frozen dataclasses',
      'C11.o __repr__ of every JSON-serializable value-equality class reads each field its equality reads (derived / fixed fields tabled); C11.q every path of a branching _json_dict_ (and of '
      'the helpers it calls) writes or tests each field some path writes; C11.r equality / hash code never freezes the entry order of a mapping into a tuple or list; '
